@@ -53,6 +53,19 @@ Definition phib_bck (P : mat R) (bc x : core3 R) : mat R := fun b r =>
 Definition local_rhs (PL : mat R) (bc : core3 R) (PR : mat R) (ra rb : nat) : core3 R :=
   mk3 ra (nn bc) rb (fun r m R' => sum_n (r0 bc) (fun b => sum_n (r1 bc) (fun B => PL b r * e3 bc b m B * PR B R'))).
 
+(* the interfaces of the right-hand side after the cores 0..k-1 (left to right, from ones((1,1))) and from the cores k+1..d-1 (right to left) *)
+Definition ones2 : mat R := fun _ _ => 1.
+Fixpoint phibF (b x : tt R) (P : mat R) : mat R :=
+  match b, x with
+  | bc :: bs, a :: xs => phibF bs xs (phib_fwd P bc a)
+  | _, _ => P
+  end.
+Fixpoint phibB (b x : tt R) : mat R :=
+  match b, x with
+  | bc :: bs, a :: xs => phib_bck (phibB bs xs) bc a
+  | _, _ => ones2
+  end.
+
 (* a core with a single entry equal to one: the basis vector (l0, m0, L0) of the local space *)
 Definition unit3 (ra n rb l0 m0 L0 : nat) : core3 R :=
   mk3 ra n rb (fun l m L => delta l0 l * delta m0 m * delta L0 L).
@@ -82,6 +95,18 @@ Definition check_phib_bck (cols : nat) (P : list R) bc x (impl : list R) : nat :
   if eqb_l (mat_flat (r0 (c3 bc)) (r0 (c3 x)) (phib_bck (mat_of_flat cols P) (c3 bc) (c3 x))) impl then 0 else 4.
 Definition check_local_product (rsL rbL : nat) (PL : list R) c (rsR rbR : nat) (PR : list R) x (impl : list R) : nat :=
   if eqb_l (flat_of_core (local_product (t3_of_flat rsL rbL PL) (c4 c) (t3_of_flat rsR rbR PR) (c3 x))) impl then 0 else 4.
+(* the Petrov-Galerkin case (AMEn products): the result lives on the frame of the approximation, ranks ra x rb, not on that of the operand core *)
+Definition check_local_product2 (ra rb rsL rbL : nat) (PL : list R) c (rsR rbR : nat) (PR : list R) x (impl : list R) : nat :=
+  if eqb_l (flat_of_core (mk3 ra (mm (c4 c)) rb (e3 (local_product (t3_of_flat rsL rbL PL) (c4 c) (t3_of_flat rsR rbR PR) (c3 x))))) impl then 0 else 4.
 Definition check_local_rhs (colsL : nat) (PL : list R) bc (colsR : nat) (PR : list R) (ra rb : nat) (impl : list R) : nat :=
   if eqb_l (flat_of_core (local_rhs (mat_of_flat colsL PL) (c3 bc) (mat_of_flat colsR PR) ra rb)) impl then 0 else 4.
+(* whole-train composition, as the sweeps compose the helper functions: interfaces of (x, A, x) and of (b, x) from the ends up to position k, then the
+   local product applied to the k-th core of x and the local right-hand side; 0 on agreement with both lists computed by the implementation *)
+Definition check_chain (pre post : list (nat * nat * nat * list R)) (Apre Apost : list (nat * nat * nat * nat * list R)) ck g
+                       (bpre bpost : list (nat * nat * nat * list R)) bk (impl_lp impl_rhs : list R) : nat :=
+  let xpre := map c3 pre in let xpost := map c3 post in
+  let PL := phiF xpre (map c4 Apre) xpre ones3 in let PR := phiB xpost (map c4 Apost) xpost in
+  if eqb_l (flat_of_core (local_product PL (c4 ck) PR (c3 g))) impl_lp then
+    if eqb_l (flat_of_core (local_rhs (phibF (map c3 bpre) xpre ones2) (c3 bk) (phibB (map c3 bpost) xpost) (r0 (c3 g)) (r1 (c3 g)))) impl_rhs then 0 else 5
+  else 4.
 End LocalCheck.
